@@ -153,7 +153,14 @@ impl<'a, F: Float> BallTreeInner<'a, F> {
         // The distance to a sphere is the distance to its edge, so the distance between a point
         // and a sphere will always be less than the distance between the point and anything inside
         // the sphere
-        let border_dist = dist_fn.distance(p, center.reborrow()) - *radius;
+        //
+        // Both the distance and the radius carry rounding errors (sums, square roots), so their
+        // difference can exceed the true distance to the sphere by a few units in the last place
+        // of `dist + radius`. The bound is shrunk by a safety margin; otherwise a stored point on
+        // the near border of a sphere is pruned although it lies within the range of the query.
+        let dist = dist_fn.distance(p, center.reborrow());
+        let margin = (dist + *radius) * F::epsilon() * F::cast(center.len() + 4);
+        let border_dist = dist - *radius - margin;
         dist_fn.dist_to_rdist(border_dist.max(F::zero()))
     }
 }
